@@ -7,6 +7,7 @@
 (*           all 1440 times, read at the clock when the script waits);      *)
 (*   or:     several accepted patterns joined by `or` and the minutes the   *)
 (*           wait matched, possibly after other uses of the same patterns.  *)
+(*   wait:   the real Clock.wait_until over a moving wall clock (see WaitOk). *)
 (* TLC decides each row against module TimePattern.                          *)
 (***************************************************************************)
 EXTENDS TimePattern, TLC, TLCExt, Json, IOUtils
@@ -37,7 +38,19 @@ SingleOk(r) == LET p == Parse(r.chars)
 OrOk(r) == /\ \A j \in DOMAIN r.pats : Shaped(Parse(r.pats[j]))
            /\ Rng(r.minutes) = UNION {Minutes(Parse(r.pats[j])) : j \in DOMAIN r.pats}
 
-RowOk(r) == IF r.kind = "single" THEN SingleOk(r) ELSE OrOk(r)
+\* wait: the real Clock.wait_until polled a wall clock that moves on between any two readings.  r.polls[p] is
+\* the list of minutes of the day the clock showed at the readings made in poll p (the last poll is the one
+\* the wait ended in, or the one after which the harness gave up).  The wait may end only at a time that
+\* matches, and must end when everything a poll saw matches.
+Wanted(r) == UNION {Minutes(Parse(r.pats[j])) : j \in DOMAIN r.pats}
+AllMatch(poll, ms) == \A k \in DOMAIN poll : poll[k] \in ms
+WaitOk(r) == LET ms == Wanted(r)
+                 n == Len(r.polls)
+             IN  /\ \A p \in 1..n - 1 : ~AllMatch(r.polls[p], ms)          \* (it went on: so not everything matched)
+                 /\ IF r.ended THEN \E k \in DOMAIN r.polls[n] : r.polls[n][k] \in ms
+                              ELSE ~AllMatch(r.polls[n], ms)
+
+RowOk(r) == IF r.kind = "single" THEN SingleOk(r) ELSE IF r.kind = "wait" THEN WaitOk(r) ELSE OrOk(r)
 
 Init == i = 1 /\ bad = 0
 Next == /\ i <= N
